@@ -105,6 +105,14 @@ def install_child_patches(actor):
         counter[0] += 1
         return uuid.UUID(int=((actor + 1) << 96) + counter[0])
     uuid.uuid4 = uuid4
+    # gzip stamps the current time into every header it writes: a constant keeps file contents (and with them the explored
+    # states) identical between executions of one schedule
+    try:
+        import gzip
+        import types
+        gzip.time = types.SimpleNamespace(time=lambda: 1.0e9)
+    except Exception:
+        pass
     try:
         import signac.project as sp
         import signac.sync as ss
